@@ -56,6 +56,7 @@ from ..const import (
 DNS_COMPRESSION_HEADER_LEN = 1
 DNS_COMPRESSION_POINTER_LEN = 2
 MAX_DNS_LABELS = 128
+MAX_DNS_LABEL_LENGTH = 63
 MAX_NAME_LENGTH = 253
 
 DECODE_EXCEPTIONS = (IndexError, struct.error, IncomingDecodeError)
@@ -401,7 +402,14 @@ class DNSIncoming:
 
             if length < 0x40:
                 label_idx = off + DNS_COMPRESSION_HEADER_LEN
-                labels.append(self.data[label_idx : label_idx + length].decode('utf-8', 'replace'))
+                label = self.data[label_idx : label_idx + length].decode('utf-8', 'replace')
+                if '\ufffd' in label and len(label.encode('utf-8')) > MAX_DNS_LABEL_LENGTH:
+                    # Each invalid byte became a 3 byte replacement character,
+                    # the label could not be written again (echoed question, known answer)
+                    raise IncomingDecodeError(
+                        f"DNS label at {off} is not valid UTF-8 and too long to be re-encoded from {self.source}"
+                    )
+                labels.append(label)
                 off += DNS_COMPRESSION_HEADER_LEN + length
                 continue
 
